@@ -279,6 +279,9 @@ fn kind_name(e: &io::Error) -> String {
 }
 
 struct HState {
+    /// Set once the handler received data or end-of-file of the role's final stream: from then on the
+    /// request must report itself writeable.
+    final_reached: bool,
     world: Shared,
     idx: usize,
     mode: HandlerMode,
@@ -318,6 +321,9 @@ impl HState {
     }
     fn sample_writeable(&self, req: &Req<'_>) {
         let v = req.is_writeable();
+        if self.final_reached && !v {
+            self.fail(Violation::new("c09_writeable_late", "", "data or end-of-file of the final input stream was delivered but is_writeable() is false".into()));
+        }
         let a = self.active.unwrap_or(99);
         self.with(|w, inv| {
             // consecutive identical samples add nothing
@@ -327,6 +333,7 @@ impl HState {
     }
     fn record_read(&mut self, n: usize, data: &[u8], buf_len: usize) {
         if let Some(i) = self.active {
+            if i + 1 == self.streams.len() && (n > 0 || buf_len > 0) { self.final_reached = true; }
             self.with(|_, inv| {
                 if n == 0 && buf_len > 0 {
                     inv.eof[i] = true;
@@ -513,7 +520,7 @@ async fn handler_body(req: &mut Req<'_>, world: Shared, mode: HandlerMode) -> io
         w.handler_log.len() - 1
     };
     let propagate = { let mut w = lock(&world); let p = w.cx.ch.chance(3, 4); p || w.force_propagate };
-    let mut st = HState { world: world.clone(), idx, mode, active: if streams.is_empty() { None } else { Some(0) }, streams, propagate };
+    let mut st = HState { final_reached: false, world: world.clone(), idx, mode, active: if streams.is_empty() { None } else { Some(0) }, streams, propagate };
     vcheck_h(&st, req.active_stream().map(u8::from) == streams.first().copied(), "c18_initial", "initial active stream wrong");
     st.sample_writeable(req);
     let r = match mode {
@@ -690,7 +697,7 @@ async fn handler_writers(req: &mut Req<'_>, st: &mut HState) -> io::Result<ExitS
     let req_ref = &mut *req;
     if with_reader {
         futs.push(Box::pin(async move {
-            let mut stl = HState { world: rworld, idx, mode: HandlerMode::Writers, active, streams: role_streams(u16::from(req_ref.role())), propagate: true };
+            let mut stl = HState { final_reached: false, world: rworld, idx, mode: HandlerMode::Writers, active, streams: role_streams(u16::from(req_ref.role())), propagate: true };
             for _ in 0..reader_reads {
                 let n = h_read(req_ref, &mut stl, 16).await?;
                 if n == 0 { break; }
